@@ -194,3 +194,77 @@ def cq_export_case(ds, values, sparse, rows):
     a = f"(mk_farr {cq_dims_t(ds)} {cq_list([cq_Q(Fraction(v)) for v in values])})"
     rs = cq_list([f"({cq_list([cq_nat(CODES(x)) for x in r[0]])}, {'None' if r[1] is None else '(Some ' + cq_Q(r[1]) + ')'})" for r in rows])
     return f"(CExport {a} {cq_bool(sparse)} {rs})"
+
+
+# ---- the table as pandas holds it, for the model of the layout recognition (Corr.DFC.CDetect) -----------------------------
+
+class EqCodes:
+    """codes with Python's own equality: 2, 2.0 and numpy's 2 are one label (that is how the importer's set comparisons see them)"""
+
+    def __init__(self):
+        self.tab = {}
+
+    def __call__(self, x):
+        if isinstance(x, np.generic):
+            x = x.item()
+        if isinstance(x, float) and math.isnan(x):
+            x = "<NaN>"
+        if x not in self.tab:
+            self.tab[x] = len(self.tab)
+        return self.tab[x]
+
+
+EQ = EqCodes()
+
+
+def cq_ent(x):
+    if isinstance(x, np.generic):
+        x = x.item()
+    try:
+        ei = f"(Some {cq_nat(EQ(int(x)))})"
+    except (ValueError, TypeError, OverflowError):
+        ei = "None"
+    es = EQ(str(x))
+    if isinstance(x, bool):
+        val = "VBad"
+    else:
+        try:
+            fv = float(x)
+            val = "VNaN" if math.isnan(fv) else f"(VNum {cq_Q(Fraction(fv))})"
+        except (ValueError, TypeError):
+            val = "VBad"
+    return f"(mk_ent {cq_nat(EQ(x))} {ei} {cq_nat(es)} {val})"
+
+
+def cq_tdim(d):
+    from common import letter_code
+    items = cq_list([cq_nat(EQ(i)) for i in d["items"]])
+    ty = {"int": "TInt", "str": "TStr", None: "TNone"}[d.get("dtype")]
+    dim = f"(mk_dim {cq_nat(letter_code(d['letter']))} {cq_nat(NAMECODES(d['name']))} {items})"
+    return f"(mk_tdim {dim} {cq_nat(EQ(d['name']))} {cq_nat(EQ(d['letter']))} {ty})"
+
+
+def cq_table(df):
+    """index levels (name, entries, the label reset_index gives), the integer range of a plain unnamed int64 index, columns"""
+    idx = df.index
+    nlev = idx.nlevels
+    reset_labels = list(df.reset_index().columns[:nlev])
+    levels = []
+    for k in range(nlev):
+        name = idx.names[k]
+        entries = list(idx.get_level_values(k))
+        nm = "None" if name is None else f"(Some {cq_ent(name)})"
+        levels.append(f"(mk_level {nm} {cq_list([cq_ent(x) for x in entries])} {cq_ent(reset_labels[k])})")
+    rng = "None"
+    if nlev == 1 and idx.names[0] is None and idx.dtype == np.int64 and len(idx) > 0:
+        rng = f"(Some ({int(idx.min())}%Z, {int(idx.max())}%Z))"
+    cols = [f"({cq_ent(c)}, {cq_list([cq_ent(x) for x in df[c].tolist()])})" for c in df.columns]
+    return f"(mk_table {cq_list(levels)} {rng} {cq_list(cols)})"
+
+
+def cq_detect_case(ds, df, am, ae, obs):
+    if obs["kind"] == "err":
+        exp = "Err"
+    else:
+        exp = "(Ok " + cq_list([cq_opt(None if v is None else cq_Q(Fraction(v[0], v[1]))) for v in obs["value"]]) + ")"
+    return f"(CDetect {cq_list([cq_tdim(d) for d in ds])} {cq_bool(am)} {cq_bool(ae)} {cq_table(df)} {exp})"
